@@ -139,4 +139,32 @@ mod harnesses {
         assert!(same(&a, &b), "C13 from_str agrees with new");
         assert!(same(&a, &c), "C13 TryFrom<&str> agrees with new");
     }
+
+    /// the String constructors agree with `new` (BOUNDED: all ASCII strings of up to 6 bytes - heap allocation makes longer ones expensive)
+    #[kani::proof]
+    #[kani::unwind(18)]
+    fn c13_constructors_string() {
+        use core::convert::TryFrom;
+        let bytes: [u8; 6] = kani::any();
+        let len: usize = kani::any();
+        kani::assume(len <= 6);
+        let mut i = 0;
+        while i < 6 { kani::assume(bytes[i] < 0x80); i += 1; }
+        let s: &str = unsafe { core::str::from_utf8_unchecked(&bytes[..len]) };
+        let a = NormalizedString::new(s);
+        let b = NormalizedString::from_string(String::from(s));
+        let c = NormalizedString::try_from(String::from(s));
+        fn same(x: &Result<NormalizedString, NormalizedStringError>, y: &Result<NormalizedString, NormalizedStringError>) -> bool {
+            match (x, y) {
+                (Ok(p), Ok(q)) => verif_parts(p) == verif_parts(q),
+                (Err(NormalizedStringError::StringTooLong), Err(NormalizedStringError::StringTooLong)) => true,
+                (Err(NormalizedStringError::CharacterNotAllowed(p)), Err(NormalizedStringError::CharacterNotAllowed(q))) => p == q,
+                _ => false,
+            }
+        }
+        kani::cover!(a.is_ok());
+        assert!(same(&a, &b), "C13 from_string agrees with new");
+        assert!(same(&a, &c), "C13 TryFrom<String> agrees with new");
+    }
 }
+
